@@ -80,11 +80,9 @@ impl FromStr for PmtreeConfig {
         };
         let use_compression = config["use_compression"].as_bool();
 
-        if temporary.is_some()
-            && path.is_some()
-            && temporary.unwrap()
-            && path.as_ref().unwrap().exists()
-        {
+        // `temporary` defaults to true (the database is removed when it is dropped): the guard applies to
+        // the effective value, so that naming an existing tree without the key cannot destroy it
+        if temporary.unwrap_or(get_tmp()) && path.is_some() && path.as_ref().unwrap().exists() {
             return Err(Report::msg(format!(
                 "Path {:?} already exists, cannot use temporary",
                 path.unwrap()
